@@ -163,9 +163,14 @@ def h_desired(env, ops, n, outcome, init, func_ops=None, control_kind=None, cana
     b = make_backend(env)
     psi = env.state(n, "psi") if init else R.basis_state(n, 0)
     kw = dict(initial_statevector=as_array(env, psi)) if init else {}
-    freqs, sv = b.simulate(circ, return_statevector=True, desired_meas_result=outcome, **kw)
     phi, applied = run_branch(B, ops, n, psi, list(outcome), func_ops)
     pb = norm2(phi)
+    if (isinstance(pb, Sym) and pb.p.is_zero()) or (not isinstance(pb, Sym) and abs(complex(pb)) < 1e-28):
+        # a branch of probability exactly zero cannot be conditioned on: the code is documented to raise
+        env.check_raises(lambda: b.simulate(circ, return_statevector=True, desired_meas_result=outcome, **kw),
+                         f"conditioning on the impossible outcome string {outcome} is refused")
+        return
+    freqs, sv = b.simulate(circ, return_statevector=True, desired_meas_result=outcome, **kw)
     if canary:
         phi = [phi[0]] + [-x for x in phi[1:]]
     P = circ.success_probabilities
@@ -426,6 +431,8 @@ SHAPES1 = {
     "m0": ([RY0, ("g", "CNOT", [1], [0]), ("m", 0), ("g", "RX", [1], [])], 2, None),
     "m1-m0": ([("g", "RY", [0], []), ("g", "RX", [1], []), ("m", 1), ("g", "CRY", [1], [0]), ("m", 0), ("g", "H", [1], [])], 2, None),
     "3q": ([("g", "H", [0], []), ("g", "CNOT", [1], [0]), ("g", "RY", [2], []), ("m", 1), ("g", "CRZ", [0], [2]), ("g", "H", [0], [])], 3, None),
+    "mm-adjacent": ([RY0, ("g", "RX", [1], []), ("g", "CNOT", [1], [0]), ("m", 0), ("m", 1), ("g", "H", [0], [])], 2, None),
+    "m-first": ([("m", 1), ("g", "RY", [0], []), ("g", "CNOT", [1], [0]), ("m", 0)], 2, None),
     "cm-dict": ([RY0, ("cm", 0, {"0": [("g", "X", [1], [])], "1": [("g", "RX", [1], [])]}), ("g", "H", [0], [])], 2, None),
     "cm-nested": ([RY0, ("g", "RX", [1], []),
                    ("cm", 0, {"0": [("g", "H", [1], []), ("cm", 1, {"0": [], "1": [("g", "X", [0], [])]})], "1": [("g", "RY", [1], [])]}),
@@ -460,7 +467,7 @@ def shapes(tier, seed):
         for s in outcome_strings(ops, fops):
             kinds = [None] if fops is None else ["func", "class"]
             for kind in kinds:
-                for init in ((False, True) if tier == "thorough" or nm in ("m0", "cm-dict") else (False,)):
+                for init in ((False, True) if tier == "thorough" or nm in ("m0", "cm-dict", "mm-adjacent", "m-first") else (False,)):
                     out.append(Shape(f"desired/{nm}/{s}/{kind or 'plain'}/init={int(init)}", h_desired,
                                      dict(ops=ops, n=n, outcome=s, init=init, func_ops=fops, control_kind=kind), modules=MODS))
         out.append(Shape(f"total/{nm}", h_total, dict(ops=ops, n=n, func_ops=fops), modules=MODS))
